@@ -53,6 +53,8 @@ def configs(tier, seed):
     cfgs += [dict(kind='straddle', name='straddle ' + c, cls=c) for c in ('TriangularOverlappingFilterBank', 'ComplexGammatoneFilterBank')]
     for erb, l2 in itertools.product((False, True), (False, True)):
         cfgs.append(dict(kind='gabor', name='gabor edges erb=%s l2=%s' % (erb, l2), erb=erb, l2=l2))
+    for l2 in (False, True):
+        cfgs.append(dict(kind='gabor_place', name='gabor impulse response sample placement l2=%s' % l2, l2=l2, widths=[2, 3, 4, 5, 8] if tier == 'quick' else [1, 2, 3, 4, 5, 6, 7, 8, 9, 12, 15]))
     for order in (range(3, 7) if tier == 'quick' else range(3, 9)):
         for erb in (False, True):
             cfgs.append(dict(kind='gt_freq', name='gammatone frequency edge n%d erb=%s' % (order, erb), order=order, erb=erb))
@@ -190,13 +192,20 @@ def run_straddle(cfg):
 
 # ------------------------------------------------------------------ Gabor: S2 (both envelopes) and S4
 
+import numpy as _np
+
+
 class SCx:
     """complex number re + i im with symbolic real parts"""
 
     def __init__(s, re, im):
         s.re, s.im = re, im
 
+    __array_priority__ = 100
+
     def __mul__(s, o):
+        if isinstance(o, _np.ndarray):
+            return NotImplemented
         if isinstance(o, SCx):
             return SCx(s.re * o.re - s.im * o.im, s.re * o.im + s.im * o.re)
         return SCx(s.re * rv(o), s.im * rv(o))
@@ -204,6 +213,8 @@ class SCx:
     __rmul__ = __mul__
 
     def __add__(s, o):
+        if isinstance(o, _np.ndarray):
+            return NotImplemented
         if isinstance(o, SCx):
             return SCx(s.re + o.re, s.im + o.im)
         return SCx(s.re + rv(o), s.im)
@@ -225,6 +236,8 @@ class CVal(SReal):
 
 
 def _srmul(self, o, _orig=SReal.__mul__):
+    if isinstance(o, _np.ndarray):
+        return NotImplemented
     if isinstance(o, complex):
         return SCx(self.z * rv(o.real), self.z * rv(o.imag))
     if isinstance(o, SCx):
@@ -238,6 +251,8 @@ _sadd = SReal.__add__
 
 
 def _sradd(self, o):
+    if isinstance(o, _np.ndarray):
+        return NotImplemented
     if isinstance(o, SCx):
         return o + self
     return _sadd(self, o)
@@ -631,7 +646,120 @@ def run_gt_time(cfg):
     return dict(obligations=ob, discharged=dis, violations=viol, samples=[{'config': cfg['name'], 'exit_condition_evaluated_at': [str(t) for t in state['evaluated'][-1:]]}], twin=dis > 0)
 
 
+class PNP:
+    """NumPy for the placement check: real NumPy (object arrays of proxies: index arithmetic, fftshift, roll are
+    NumPy's own), with zeros -> object array and exp / log / sqrt element-wise on the proxies"""
+
+    def __getattr__(self, n):
+        if hasattr(GNP, n):
+            return getattr(GNP, n)
+        return getattr(_np, n)
+
+    float64 = 'f8'
+    complex128 = 'c16'
+    pi = math.pi
+
+    @staticmethod
+    def zeros(n, dtype=None):
+        r = _np.empty(n, dtype=object)
+        r[...] = 0
+        return r
+
+    @staticmethod
+    def exp(v):
+        if isinstance(v, _np.ndarray):
+            return _np.frompyfunc(GNP.exp, 1, 1)(v)
+        return GNP.exp(v)
+
+
+def run_gabor_place(cfg):
+    """GaborFilterBank.get_impulse_response(i, W), W concrete, centre and std symbolic: sample n must be the sum of the
+    documented terms exp(-t^2 / (2 std^2) + C + i xi t) over integers t congruent to n modulo W (aliasing into a short
+    buffer), must contain the representative nearest to 0, and nothing else.  The exponents are read off the CEXP
+    tokens the real code builds; each is matched against the candidates t = n + kW for all (std, xi) (nlsat)."""
+    l2 = cfg['l2']
+    ns = fc.load_filters(dict(np=PNP()), decimal=False)
+    fc.stub_alias(ns)
+    viol = []
+    ob = dis = 0
+    tol = z3.RealVal('1/1000000000')
+    lpi, l2_ = math.log(math.pi), math.log(2)
+    sv, xi = z3.Real('std'), z3.Real('xi')
+    Ls = LOGEXP.f(sv)
+    Ct2 = (-rv(0.5) * Ls - rv(0.25 * lpi)) if l2 else (-Ls - rv(0.5 * (l2_ + lpi)))
+    for W in cfg['widths']:
+        def body():
+            c = Ctx.cur
+            c.assume(sv > 0, xi >= 0, xi <= rv(math.pi))
+            b = fc.handbuilt(ns, 'GaborFilterBank', _centers_ang=(SReal(xi),), _stds=(SReal(sv),), _supports_ang=((SReal(xi - 1), SReal(xi + 1)),),
+                             _scale_l2_norm=l2, _rate=8000)
+            del EXPARGS[:]
+            try:
+                res = b.get_impulse_response(0, W)
+            except Exception as e:
+                symex.guard(e)
+                return ('exception', '%s: %s' % (type(e).__name__, e))
+            if len(res) != W:
+                return ('length', len(res))
+            return ('ok', [rv(res[n]) if not isinstance(res[n], (int, float)) else z3.RealVal(res[n]) for n in range(W)])
+        for ctx, res in explore(body, max_paths=20):
+            if res is None:
+                continue
+            ob += 1
+            base = dict(kind='gabor_place', l2=l2, width=W)
+            if res[0] != 'ok':
+                viol.append(dict(base, what='%s %s' % (res[0], res[1])))
+                continue
+            extra = [sv > 0, sv <= 50, xi >= 0, xi <= rv(math.pi)]
+            bad = None
+            for n, cell in enumerate(res[1]):
+                apps = _apps([cell], 'CEXP')
+                for t in _apps([a_ for ap in apps for a_ in ap.children()], 'LOG'):
+                    extra.append(z3.Implies(t.arg(0) == sv, t == Ls))
+                found = set()
+                for ap in apps:
+                    re_, im_ = ap.arg(0), ap.arg(1)
+                    hit = None
+                    for k in (0, -1, 1, -2, 2, -3, 3):
+                        t = n + k * W
+                        r1, _ = nra_check(extra + [z3.Or(im_ - xi * t > tol, xi * t - im_ > tol)], timeout_ms=20000)
+                        if r1 != 'unsat':
+                            continue
+                        cnd = -rv(t * t) / (2 * sv * sv) + Ct2
+                        r2, _ = nra_check(extra + [z3.Or(re_ - cnd > tol, cnd - re_ > tol)], timeout_ms=20000)
+                        if r2 == 'unsat':
+                            hit = t
+                            break
+                    if hit is None:
+                        bad = 'sample %d of %d contains a term exp(%s + i(%s)) that is not the documented Gaussian carrier at a time congruent to %d' % (n, W, str(z3.simplify(re_))[:60], str(z3.simplify(im_))[:40], n)
+                        break
+                    found.add(hit)
+                if bad:
+                    break
+                nearest = {n, n - W} if 2 * n == W else ({n} if 2 * n < W else {n - W})
+                if not (found & nearest):
+                    bad = 'sample %d of %d lacks the term at time %s (found times %s)' % (n, W, sorted(nearest), sorted(found))
+                    break
+                # the cell is exactly the sum of its terms (unit coefficients)
+                if not z3.simplify(cell - z3.Sum(apps)).eq(z3.RealVal(0)):
+                    s_ = z3.Solver()
+                    s_.add(cell != z3.Sum(apps))
+                    if check_sat(s_) == 'sat':
+                        bad = 'sample %d of %d is not the plain sum of its exponential terms' % (n, W)
+                        break
+            if bad:
+                viol.append(dict(base, what=bad))
+            else:
+                dis += 1
+    for w in viol:
+        w['class'] = 'gabor_place/%s/%s' % ('odd' if w['width'] % 2 else 'even', w['what'].split(' of ')[0][:20] if ' of ' in w['what'] else w['what'][:20])
+    return dict(obligations=ob, discharged=dis, violations=viol, twin=dis > 0,
+                samples=[{'config': cfg['name'], 'obligation': 'forall std, xi: h[n] = sum over t = n mod W of the documented term, nearest representative present', 'widths': cfg['widths']}])
+
+
 def run_config(cfg):
+    if cfg['kind'] == 'gabor_place':
+        return run_gabor_place(cfg)
     return {'dtype': run_dtype, 'straddle': run_straddle, 'gabor': run_gabor, 'gt_freq': run_gt_freq, 'gt_time': run_gt_time}[cfg['kind']](cfg)
 
 
@@ -693,6 +821,22 @@ def replay(w):
                       if v2 > worst[0]:
                           worst = (float(v2), 'filter %d of %d (time; %.1f x threshold)' % (i, nfb, v2 / 1.25 / thr))
             return {'reproduced': worst[0] > 2.5 * thr, 'detail': 'max magnitude outside the advertised support = %.3g (%.1f x threshold) at %s' % (worst[0], worst[0] / thr, worst[1])}
+        if k == 'gabor_place':
+            worst = (0.0, None)
+            for sc_ in ('mel', 'bark'):
+                b = filters.GaborFilterBank(sc_, num_filts=6, low_hz=100.0, sampling_rate=8000, scale_l2_norm=w['l2'])
+                for i in range(b.num_filts):
+                    s0, s1 = b.supports[i]
+                    for width in (2 * (s1 - s0) + 1, 2 * (s1 - s0) + 2, 4 * (s1 - s0) + 1, 4 * (s1 - s0) + 2):     # both parities; wide enough for negligible aliasing
+                        if width < 1:
+                            continue
+                        h = b.get_impulse_response(i, width)
+                        H = b.get_frequency_response(i, width)
+                        d = float(np.abs(np.fft.ifft(H) - h).max())
+                        # both are periodised samplings of the same Fourier pair: they agree up to the truncated tails
+                        if d > worst[0]:
+                            worst = (d, 'filter %d width %d' % (i, width))
+            return {'reproduced': worst[0] > 4 * thr, 'detail': 'max |ifft(get_frequency_response) - get_impulse_response| = %.3g (%.1f x threshold) at %s' % (worst[0], worst[0] / thr, worst[1])}
         if k == 'straddle':
             C = getattr(filters, w['cls'])
             for kw in ({}, {'max_centered': True} if w['cls'].startswith('Complex') else {}):
